@@ -3,6 +3,9 @@ package isaacstates
 import (
 	"sync"
 
+	"github.com/spikeekips/mitum/util"
+	"github.com/spikeekips/mitum/util/valuehash"
+
 	"github.com/spikeekips/mitum/base"
 	"github.com/spikeekips/mitum/isaac"
 	"github.com/spikeekips/mitum/util/verifrt"
@@ -62,6 +65,17 @@ func verifC04CheckVoteproof(w *verifBBWorld, vp base.Voteproof, cast map[string]
 	}
 	verifrt.Assert(vp.IsValid([]byte("network")) == nil, "C04.S3.passes-voteproof-validation")
 	verifrt.Assert(isaac.IsValidVoteproofWithSuffrage(vp, w.suf) == nil, "C04.S3.passes-the-validation-with-suffrage-that-other-nodes-apply")
+	if we, ok := vp.(base.HasExpels); ok && len(we.Expels()) > 0 {
+		// with expels the recount is the one of the reduced suffrage at 100%: every remaining node
+		// signed the majority (S3 runs the real validation of exactly that)
+		verifrt.Reach("C04.expel-voteproof-emitted")
+		if vp.Result() == base.VoteResultMajority {
+			for _, k := range set {
+				verifrt.Assert(k == vp.Majority().Hash().String(), "C04.S4.result-equals-a-fresh-recount(expel-voteproof:every-remaining-node-signed-the-majority)")
+			}
+		}
+		return
+	}
 	// S4: fresh recount with the harness's own tally
 	need := vp.Threshold().Threshold(uint(w.suf.Len()))
 	count := map[string]uint{}
@@ -181,7 +195,6 @@ func VerifC04Concurrent() {
 	verifrt.Assert(n <= 3, "C04.harness.bounded-number-of-voteproofs")
 }
 
-
 // VerifC04AdvanceDuringCount: the position of the box is advanced by somebody else (a voteproof
 // from outside, SetLastPoint) exactly while the deciding ballot is being counted — at the moment
 // the box asks for the threshold, i.e. after it read its position and before it filters what it
@@ -223,4 +236,37 @@ func VerifC04AdvanceDuringCount() {
 		}
 	}
 	_ = p
+}
+
+// VerifC04Expels: ballots that carry an expel operation of node d (signed by 2..3 other members),
+// whose validity range ends just before, at, or after the ballot's height: whatever the box
+// emits passes the validation other nodes apply (an expired expel must not get into a voteproof).
+func VerifC04Expels() {
+	w := verifBBNewWorld(4, base.Threshold(60))
+	height := int64(33)
+	end := base.Height(height - 1 + int64(verifrt.NondetChoice("expel-end", 3))) // 32, 33, 34
+	signs := 2 + verifrt.NondetChoice("expel-signs", 2)
+	// node d is expelled (the local node a ignores expels of itself); a, b, c sign and vote
+	op := isaac.NewSuffrageExpelOperation(isaac.NewSuffrageExpelFact(w.nodes[3].Address(), base.Height(30), end, "dead"))
+	for j := 0; j < signs; j++ {
+		verifrt.Assert(op.NodeSign(verifBBPriv{s: "pub-" + string(rune('a'+j))}, base.NetworkID([]byte("network")), w.nodes[j].Address()) == nil, "C04.harness.expel-sign")
+	}
+	expels := []base.SuffrageExpelOperation{op}
+	point := base.RawPoint(height, 0)
+	fact := isaac.NewINITBallotFact(point, valuehash.NewSHA256([]byte("previous-block")), valuehash.NewSHA256([]byte("p0")), []util.Hash{op.Fact().Hash()})
+	cast := map[string]bool{base.NewStagePoint(point, base.StageINIT).String(): true}
+	voters := 2 + verifrt.NondetChoice("voters", 2) // nodes a, b (, c)
+	for j := 0; j < voters; j++ {
+		sf := verifBBSF{node: w.nodes[j].Address(), pub: w.nodes[j].Publickey(), fact: fact}
+		_, deferred, err := w.box.vote(sf, nil, expels)
+		verifrt.Assert(err == nil, "C04.harness.vote-without-error")
+		if deferred != nil {
+			deferred()
+		}
+	}
+	_ = w.box.Count()
+	verifrt.Reach("C04.expels.voted")
+	for _, vp := range w.drain() {
+		verifC04CheckVoteproof(w, vp, cast)
+	}
 }
